@@ -563,3 +563,321 @@ Proof.
     + destruct (Z.ltb_spec 0 (b mod 8388608)) as [P|P]; [reflexivity|exfalso; lia].
     + destruct (Z.ltb_spec 0 (8388608 + b mod 8388608)) as [P|P]; [reflexivity|exfalso; lia].
 Qed.
+
+(* ---- decoder (C14): the normalisation loop preserves mant * 2^(exp-150) and stops at bit 23 ---- *)
+Lemma norm_spec (k : nat) : forall fuel exp mant, (k <= fuel)%nat ->
+  2 ^ 23 <= mant * 2 ^ Z.of_nat k < 2 ^ 24 -> 0 < mant -> Z.of_nat k <= exp < 256 ->
+  norm fuel exp mant = (exp - Z.of_nat k, mant * 2 ^ Z.of_nat k).
+Proof.
+  change (2 ^ 23) with 8388608. change (2 ^ 24) with 16777216.
+  induction k as [|k IH]; intros fuel exp mant Hf Hm Hp He.
+  - change (Z.of_nat 0) with 0 in *. change (2 ^ 0) with 1 in *. rewrite Z.mul_1_r in *. rewrite Z.sub_0_r.
+    destruct fuel as [|f]; [reflexivity|]. cbn [norm]. change (2 ^ 23) with 8388608.
+    destruct (Z.eqb_spec ((mant / 8388608) mod 2) 0) as [E|E]; [exfalso; lia|reflexivity].
+  - destruct fuel as [|f]; [lia|]. rewrite Nat2Z.inj_succ in *. rewrite Z.pow_succ_r in * by lia.
+    pose proof (pow2_pos (Z.of_nat k) ltac:(lia)) as HP.
+    assert (Hlt : mant < 8388608).
+    { destruct (Z.lt_ge_cases mant 8388608) as [A|A]; [exact A|exfalso].
+      assert (8388608 * (2 * 2 ^ Z.of_nat k) <= mant * (2 * 2 ^ Z.of_nat k)) by (apply Z.mul_le_mono_nonneg_r; lia). lia. }
+    cbn [norm]. change (2 ^ 23) with 8388608. change (2 ^ 32) with 4294967296.
+    destruct (Z.eqb_spec ((mant / 8388608) mod 2) 0) as [E|E]; [|exfalso; lia].
+    replace ((exp - 1) mod 256) with (exp - 1) by lia. replace ((mant * 2) mod 4294967296) with (mant * 2) by lia.
+    rewrite IH; [| lia | rewrite <- Z.mul_assoc; exact Hm | lia | lia ].
+    f_equal; [lia|ring].
+Qed.
+
+Lemma norm_shift_exists m : 0 < m < 2 ^ 18 ->
+  exists k : nat, Z.of_nat k = 23 - Z.log2 m /\ (6 <= k <= 23)%nat /\ 2 ^ 23 <= m * 2 ^ Z.of_nat k < 2 ^ 24.
+Proof.
+  intros Hm. pose proof (Z.log2_spec m ltac:(lia)) as [Hlo Hhi]. pose proof (Z.log2_nonneg m) as H0.
+  assert (HL : Z.log2 m < 18) by (apply Z.log2_lt_pow2; lia).
+  exists (Z.to_nat (23 - Z.log2 m)). split; [lia|]. split; [lia|]. rewrite Z2Nat.id by lia.
+  pose proof (pow2_pos (23 - Z.log2 m) ltac:(lia)) as HP.
+  replace (2 ^ 23) with (2 ^ Z.log2 m * 2 ^ (23 - Z.log2 m)) by (rewrite <- Z.pow_add_r by lia; f_equal; lia).
+  replace (2 ^ 24) with (2 ^ Z.succ (Z.log2 m) * 2 ^ (23 - Z.log2 m)) by (rewrite <- Z.pow_add_r by lia; f_equal; lia).
+  split; [apply Z.mul_le_mono_nonneg_r; lia | apply Z.mul_lt_mono_pos_r; lia].
+Qed.
+
+(* the bits produced for a non-zero mantissa are those of the float32 m*2^k * 2^(e-k), k the normalising shift *)
+Theorem remb_decode_bits e m : 0 <= e < 64 -> 0 < m < 2 ^ 18 ->
+  exists k, k = 23 - Z.log2 m /\ 6 <= k <= 23 /\ 2 ^ 23 <= m * 2 ^ k < 2 ^ 24 /\
+    remb_dec e m = (e + 150 - k) * 2 ^ 23 + (m * 2 ^ k - 2 ^ 23) /\
+    f32_of_bits (remb_dec e m) = Fin false (m * 2 ^ k) (e - k).
+Proof.
+  intros He Hm. destruct (norm_shift_exists m Hm) as (k & Hk0 & Hk & HM).
+  exists (Z.of_nat k). split; [exact Hk0|]. split; [lia|]. split; [exact HM|].
+  assert (HD : remb_dec e m = (e + 150 - Z.of_nat k) * 2 ^ 23 + (m * 2 ^ Z.of_nat k - 2 ^ 23)).
+  { unfold remb_dec. replace ((e + 127 + 23) mod 256) with (e + 150) by lia.
+    destruct (Z.eqb_spec m 0) as [A|_]; [lia|].
+    rewrite (norm_spec k) by (try exact HM; lia).
+    set (M := m * 2 ^ Z.of_nat k) in *. change (2 ^ 23) with 8388608 in *. change (2 ^ 24) with 16777216 in *.
+    change (2 ^ 32) with 4294967296. lia. }
+  split; [exact HD|]. rewrite HD. unfold f32_of_bits.
+  set (M := m * 2 ^ Z.of_nat k) in *. set (E := e + 150 - Z.of_nat k).
+  assert (HE : 127 <= E < 208) by (unfold E; lia).
+  change (2 ^ 23) with 8388608 in *. change (2 ^ 24) with 16777216 in *. change (2 ^ 31) with 2147483648.
+  replace ((E * 8388608 + (M - 8388608)) / 2147483648) with 0 by lia. change (Z.odd 0) with false.
+  replace (((E * 8388608 + (M - 8388608)) / 8388608) mod 256) with E by lia.
+  replace ((E * 8388608 + (M - 8388608)) mod 8388608) with (M - 8388608) by lia.
+  destruct (Z.eqb_spec E 255) as [A|_]; [lia|]. destruct (Z.eqb_spec E 0) as [A|_]; [lia|].
+  f_equal; unfold E; lia.
+Qed.
+
+(* C14, decoder: for a non-zero mantissa the decoded float32 is exactly m * 2^e *)
+Theorem remb_decode_exact e m : 0 <= e < 64 -> 0 < m < 2 ^ 18 ->
+  exists m' e', remb_value (Z.to_N (remb_dec e m)) = Some (m', e') /\ m' * 2 ^ (e' + 149) = m * 2 ^ (e + 149)
+                /\ remb_floor (Z.to_N (remb_dec e m)) = Some (m * 2 ^ e).
+Proof.
+  intros He Hm. destruct (remb_decode_bits e m He Hm) as (k & _ & Hk & HM & HD & HF).
+  assert (Hpos : 0 <= remb_dec e m).
+  { rewrite HD. change (2 ^ 23) with 8388608 in *. lia. }
+  assert (HV : remb_value (Z.to_N (remb_dec e m)) = Some (m * 2 ^ k, e - k)).
+  { unfold remb_value. rewrite Z2N.id by exact Hpos. rewrite HF. reflexivity. }
+  exists (m * 2 ^ k), (e - k). split; [exact HV|]. split.
+  - replace (e + 149) with (k + (e - k + 149)) by lia. rewrite (Z.pow_add_r 2 k) by lia. ring.
+  - unfold remb_floor. rewrite HV. cbn [option_map]. f_equal. unfold ifloor.
+    destruct (Z.leb_spec 0 (e - k)) as [A|A].
+    + replace e with (k + (e - k)) at 2 by lia. rewrite (Z.pow_add_r 2 k) by lia. ring.
+    + replace k with (e + (k - e)) at 1 by lia. rewrite (Z.pow_add_r 2 e) by lia.
+      replace (- (e - k)) with (k - e) by lia. rewrite Z.mul_assoc. apply Z.div_mul. pose proof (pow2_pos (k - e)); lia.
+Qed.
+
+(* Finding F16: mantissa 0 does not decode to 0 but to 2^23 * 2^e *)
+Lemma remb_decode_zero e : 0 <= e < 64 -> remb_value (Z.to_N (remb_dec e 0)) = Some (2 ^ 23, e).
+Proof.
+  intros He. unfold remb_dec. replace ((e + 127 + 23) mod 256) with (e + 150) by lia.
+  change (0 =? 0) with true. cbv iota. change (0 mod 2 ^ 23) with 0. rewrite Z.add_0_r.
+  change (2 ^ 23) with 8388608. change (2 ^ 32) with 4294967296.
+  replace (((e + 150) * 8388608) mod 4294967296) with ((e + 150) * 8388608) by lia.
+  unfold remb_value. rewrite Z2N.id by lia. unfold f32_of_bits.
+  change (2 ^ 23) with 8388608. change (2 ^ 31) with 2147483648.
+  replace ((e + 150) * 8388608 / 2147483648) with 0 by lia. change (Z.odd 0) with false.
+  replace (((e + 150) * 8388608 / 8388608) mod 256) with (e + 150) by lia.
+  replace (((e + 150) * 8388608) mod 8388608) with 0 by lia.
+  destruct (Z.eqb_spec (e + 150) 255) as [A|_]; [lia|]. destruct (Z.eqb_spec (e + 150) 0) as [A|_]; [lia|].
+  cbn [andb]. f_equal. f_equal; lia.
+Qed.
+
+Theorem remb_decode_zero_refuted :
+  exists e, 0 <= e < 64 /\ forall m' e', remb_value (Z.to_N (remb_dec e 0)) = Some (m', e') -> m' * 2 ^ (e' + 149) <> 0 * 2 ^ (e + 149).
+Proof.
+  exists 0. split; [lia|]. intros m' e' H. rewrite remb_decode_zero in H by lia. injection H as H1 H2. subst m' e'.
+  vm_compute. discriminate.
+Qed.
+
+(* round trip of the bitrate field on canonical pairs with a non-zero mantissa (C02 for the bitrate) *)
+Theorem remb_enc_dec e m : 0 <= e < 64 -> 0 < m < 2 ^ 18 -> (2 ^ 17 <= m \/ e = 0) ->
+  remb_enc (remb_dec e m) = Some (e, m).
+Proof.
+  intros He Hm Hc. destruct (remb_decode_exact e m He Hm) as (m' & e' & _ & _ & HF).
+  destruct (remb_decode_bits e m He Hm) as (k & _ & Hk & HM & HD & _).
+  apply remb_encode_floor in HF. rewrite Z2N.id in HF by (rewrite HD; change (2 ^ 23) with 8388608 in *; lia).
+  rewrite HF. f_equal. apply remb_ref_canonical; [lia|lia|exact Hc].
+Qed.
+
+(* ------------------------------------------------------------------------------------------ *)
+(* REMB packet (C03, C08)                                                                       *)
+(* ------------------------------------------------------------------------------------------ *)
+Local Open Scope N_scope.
+
+Lemma REMB_marshal_limit p : 255 < nl (remb_ssrcs p) -> REMB_marshal p = Err.
+Proof.
+  intros H. unfold REMB_marshal, nlen. fold (nl (remb_ssrcs p)).
+  destruct (N.ltb_spec 255 (nl (remb_ssrcs p))); [reflexivity|lia].
+Qed.
+
+Lemma concat_be4_len (l : list N) : len (List.concat (map (be 4) l)) = 4 * nl l.
+Proof.
+  unfold len, nl. induction l as [|x r IH]; [reflexivity|]. cbn [map List.concat]. rewrite app_length, be_length.
+  cbn [length]. lia.
+Qed.
+
+Lemma be3_bytes x : be 3 x = [n2b (x / 256 / 256); n2b (x / 256); n2b x].
+Proof. reflexivity. Qed.
+Lemma be1_bytes x : be 1 x = [n2b x].
+Proof. reflexivity. Qed.
+
+Lemma REMB_marshal_spec p : D_REMB p = true -> REMB_marshal p = Ok (enc_REMB p).
+Proof.
+  unfold D_REMB, fits. rewrite !andb_true_iff. intros ((((Hs & Hn) & Hss) & Hb) & Hv).
+  destruct (remb_value (remb_bitrate p)) as [[vm ve]|] eqn:HV; [|discriminate].
+  assert (HF : remb_floor (remb_bitrate p) = Some (ifloor vm ve)) by (unfold remb_floor; rewrite HV; reflexivity).
+  pose proof (remb_floor_nonneg _ _ HF) as H0. pose proof (remb_encode_floor _ _ HF) as HE.
+  pose proof (remb_ref_bounds _ H0) as [Hb1 Hb2].
+  unfold REMB_marshal, enc_REMB, nlen. fold (nl (remb_ssrcs p)). rewrite HF, HE.
+  destruct (remb_ref (ifloor vm ve)) as [e m]. cbn [fst snd] in Hb1, Hb2.
+  destruct (N.ltb_spec 255 (nl (remb_ssrcs p))) as [A|_]; [lia|].
+  unfold frame, hdr, REMB_size, nlen. fold (nl (remb_ssrcs p)). rewrite be3_bytes, be1_bytes.
+  rewrite !len_app, !len_be, concat_be4_len. unfold len. cbn [length N.of_nat Pos.of_succ_nat Pos.succ app].
+  set (n := nl (remb_ssrcs p)) in *.
+  assert (He : Z.to_N e < 64) by lia. assert (Hm : Z.to_N m < 262144) by (change (2 ^ 18)%Z with 262144%Z in Hb2; lia).
+  generalize dependent (Z.to_N e). generalize dependent (Z.to_N m). intros M HM E HE'.
+  change (2 ^ 18) with 262144.
+  f_equal. f_equal. f_equal.
+  assert (HL : N.lor (u8 (E * 4)) (u8 (M / 65536)) = E * 4 + M / 65536).
+  { unfold u8. replace ((E * 4) mod 256) with (E * 4) by lia. replace ((M / 65536) mod 256) with (M / 65536) by lia.
+    apply (lor_disjoint_add (E * 4) (M / 65536) 2); change (2 ^ 2) with 4; lia. }
+  rewrite HL.
+  replace (u16 ((20 + 4 * n) / 4 - 1)) with ((4 + (4 + (4 + (4 + (1 + (3 + 4 * n)))))) / 4 - 1) by (unfold u16; lia).
+  rewrite (n2b_mod (E * 4 + M / 65536) ((E * 262144 + M) / 256 / 256)) by lia.
+  rewrite (n2b_mod (M / 256) ((E * 262144 + M) / 256)) by lia.
+  rewrite (n2b_mod M (E * 262144 + M)) by lia.
+  reflexivity.
+Qed.
+
+(* ------------------------------------------------------------------------------------------ *)
+(* CCFB decoding of the RFC layout (C02 / C04 direction): the decoder inverts enc on the domain  *)
+(* ------------------------------------------------------------------------------------------ *)
+
+Lemma enc_metric_two m : exists b0 b1, enc_metric m = [b0; b1].
+Proof. unfold enc_metric. destruct (mb_received m); rewrite be2_bytes; eauto. Qed.
+
+Lemma get_metrics_enc ms : forall tail, forallb D_metric ms = true ->
+  get_metrics (length ms) (List.concat (map enc_metric ms) ++ tail) = Ok ms.
+Proof.
+  induction ms as [|m r IH]; intros tail HD; [reflexivity|].
+  cbn [forallb] in HD. apply andb_true_iff in HD as [Hm Hr].
+  cbn [length map List.concat]. destruct (enc_metric_two m) as (b0 & b1 & E).
+  rewrite <- app_assoc. rewrite E. cbn [app get_metrics]. rewrite <- E.
+  rewrite CCMetric_unmarshal_enc by exact Hm. cbn [bind]. rewrite IH by exact Hr. reflexivity.
+Qed.
+
+Lemma ccblock_hdr_reads s bg c R : s < 4294967296 -> bg < 65536 -> c < 65536 ->
+  let raw := be 4 s ++ be 2 bg ++ be 2 c ++ R in
+  get_be_at 4 raw 0 = Ok s /\ get_be_at 2 raw 4 = Ok bg /\ get_be_at 2 raw 6 = Ok c /\ skipn 8 raw = R /\ len raw = 8 + len R.
+Proof.
+  intros Hs Hb Hc raw. unfold raw. repeat split.
+  - apply (get_be_at_app 4 [] s); [reflexivity|exact Hs].
+  - apply (get_be_at_app 2 (be 4 s) bg); [reflexivity|exact Hb].
+  - rewrite (app_assoc (be 4 s)). apply (get_be_at_app 2 (be 4 s ++ be 2 bg) c); [reflexivity|exact Hc].
+  - rewrite !len_app, !len_be. lia.
+Qed.
+
+Lemma CCBlock_unmarshal_enc b rest : D_ccblock b = true -> CCBlock_unmarshal (enc_ccblock b ++ rest) = Ok b.
+Proof.
+  intros H. apply D_ccblock_inv in H as (Hs & Hb & Hn & Hn1 & Hw & Hm).
+  destruct b as [s bg ms]. cbn [cb_ssrc cb_begin cb_metrics] in *.
+  unfold enc_ccblock, pad4. cbn [cb_ssrc cb_begin cb_metrics]. rewrite <- !app_assoc.
+  set (c := if nl ms =? 0 then 0 else nl ms - 1).
+  set (R := List.concat (map enc_metric ms) ++ zeros (get_padding (len (be 4 s ++ be 2 bg ++ be 2 c ++ List.concat (map enc_metric ms)))) ++ rest).
+  assert (Hc : c < 65536) by (unfold c; destruct (N.eqb_spec (nl ms) 0); lia).
+  destruct (ccblock_hdr_reads s bg c R Hs Hb Hc) as (R1 & R2 & R3 & R4 & R5).
+  unfold CCBlock_unmarshal. consts. rewrite R5, R1, R2, R3. cbn [bind].
+  assert (HR : 2 * nl ms <= len R) by (unfold R; rewrite len_app, enc_metrics_len; lia).
+  destruct (N.ltb_spec (8 + len R) 8) as [A|_]; [lia|].
+  unfold c. destruct (N.eqb_spec (nl ms) 0) as [E0|E0].
+  - change (0 =? 0) with true. cbv iota. destruct ms; [reflexivity| unfold nl in E0; cbn [length] in E0; lia].
+  - destruct (N.eqb_spec (nl ms - 1) 0) as [A|_]; [lia|].
+    destruct (N.ltb_spec 65535 (bg + (nl ms - 1))) as [A|_]; [lia|].
+    assert (EN : u16 (u16 (sub16 (u16 (bg + (nl ms - 1))) bg) + 1) = nl ms) by (unfold u16, sub16; lia).
+    rewrite EN. destruct (N.ltb_spec (8 + len R) (8 + nl ms * 2)) as [A|_]; [lia|].
+    change (N.to_nat 8) with 8%nat. change (skipn 8 (be 4 s ++ be 2 bg ++ be 2 (nl ms - 1) ++ R)) with R.
+    unfold R, nl. rewrite Nat2N.id.
+    rewrite get_metrics_enc by exact Hm. reflexivity.
+Qed.
+
+Lemma blocks_count_le bs : N.of_nat (length bs) <= blocks_len bs.
+Proof.
+  induction bs as [|b r IH]; [cbn; lia|]. cbn [length blocks_len fold_right]. fold (blocks_len r).
+  pose proof (CCBlock_len_mod4 b). lia.
+Qed.
+
+Lemma blocks_loop_enc bs : forall pre tail fuel, forallb D_ccblock bs = true -> (length bs < fuel)%nat ->
+  blocks_loop fuel (pre ++ List.concat (map enc_ccblock bs) ++ tail) (len pre) (len pre + blocks_len bs) = Ok bs.
+Proof.
+  induction bs as [|b r IH]; intros pre tail fuel HD Hf.
+  - destruct fuel as [|f]; [cbn [length] in Hf; lia|]. cbn [blocks_loop blocks_len fold_right].
+    destruct (N.ltb_spec (len pre) (len pre + 0)); [lia|reflexivity].
+  - destruct fuel as [|f]; [lia|]. cbn [length] in Hf.
+    cbn [forallb] in HD. apply andb_true_iff in HD as [Hb Hr].
+    cbn [blocks_loop blocks_len fold_right map List.concat]. fold (blocks_len r).
+    pose proof (CCBlock_len_mod4 b) as [_ H8].
+    destruct (N.ltb_spec (len pre) (len pre + (CCBlock_len b + blocks_len r))) as [_|A]; [|lia].
+    rewrite slice_from_ok by (rewrite len_app; lia). cbn [bind].
+    unfold len at 1. rewrite Nat2N.id. rewrite skipn_app, skipn_all, Nat.sub_diag. cbn [skipn app].
+    rewrite <- app_assoc. rewrite CCBlock_unmarshal_enc by exact Hb. cbn [bind].
+    replace (len pre + CCBlock_len b) with (len (pre ++ enc_ccblock b)) by (rewrite len_app, enc_ccblock_len; reflexivity).
+    replace (len pre + (CCBlock_len b + blocks_len r)) with (len (pre ++ enc_ccblock b) + blocks_len r)
+      by (rewrite len_app, enc_ccblock_len; lia).
+    rewrite (app_assoc pre). rewrite IH; [reflexivity|exact Hr|lia].
+Qed.
+
+(* C02/C04 for CCFB on the domain D_CCFB (which excludes one-metric blocks and wrapping ranges: finding F6) *)
+Theorem CCFB_unmarshal_enc p : D_CCFB p = true -> CCFB_size p <= 262140 -> CCFB_unmarshal (enc_CCFB p) = Ok p.
+Proof.
+  intros HD Hsz. apply D_CCFB_inv in HD as (Hs & Ht & Hb).
+  rewrite CCFB_size_blocks in Hsz. pose proof (blocks_len_mod4 (cc_blocks p)) as Hm4.
+  destruct p as [snd bs ts]. cbn [cc_sender cc_blocks cc_timestamp] in *.
+  unfold enc_CCFB, frame. cbn [cc_sender cc_blocks cc_timestamp].
+  set (body := be 4 snd ++ List.concat (map enc_ccblock bs) ++ be 4 ts).
+  assert (Hbody : len body = 8 + blocks_len bs).
+  { unfold body. rewrite !len_app, !len_be, enc_blocks_len. lia. }
+  rewrite Hbody. set (L := (4 + (8 + blocks_len bs)) / 4 - 1).
+  assert (HL : L < 65536) by (unfold L; lia).
+  assert (Hh : len (hdr false 11 205 L) = 4) by reflexivity.
+  assert (Hraw : len (hdr false 11 205 L ++ body) = 12 + blocks_len bs) by (rewrite len_app, Hh, Hbody; lia).
+  unfold CCFB_unmarshal. consts. rewrite Hraw.
+  destruct (N.ltb_spec (12 + blocks_len bs) (4 + 4 + 4)) as [A|_]; [lia|].
+  rewrite Header_unmarshal_hdr by lia. cbn [bind h_type]. change (205 =? 205) with true. cbn [negb].
+  unfold body at 1. rewrite (get_be_at_app 4 (hdr false 11 205 L) snd) by (try exact Hs; reflexivity). cbn [bind].
+  assert (E1 : hdr false 11 205 L ++ body = (hdr false 11 205 L ++ be 4 snd ++ List.concat (map enc_ccblock bs)) ++ be 4 ts ++ []).
+  { unfold body. rewrite app_nil_r, <- !app_assoc. reflexivity. }
+  rewrite E1 at 1. rewrite (get_be_at_app 4 _ ts) by (try exact Ht; rewrite !len_app, Hh, len_be, enc_blocks_len; lia).
+  cbn [bind].
+  assert (E2 : hdr false 11 205 L ++ body = (hdr false 11 205 L ++ be 4 snd) ++ List.concat (map enc_ccblock bs) ++ be 4 ts).
+  { unfold body. rewrite <- !app_assoc. reflexivity. }
+  assert (Hpre : len (hdr false 11 205 L ++ be 4 snd) = 8) by reflexivity.
+  replace (12 + blocks_len bs - 4) with (len (hdr false 11 205 L ++ be 4 snd) + blocks_len bs) by (rewrite Hpre; lia).
+  change 8 with (len (hdr false 11 205 L ++ be 4 snd)) at 1.
+  rewrite E2. rewrite blocks_loop_enc; [reflexivity|exact Hb|].
+  pose proof (blocks_count_le bs). rewrite <- E2. unfold len in Hraw. lia.
+Qed.
+
+(* ------------------------------------------------------------------------------------------ *)
+(* REMB decoding of the RFC layout (C02): Unmarshal (enc p) = the documented quantisation q_REMB *)
+(* ------------------------------------------------------------------------------------------ *)
+From RTCP Require Import Spec.Laws.
+
+Local Open Scope Z_scope.
+Lemma remb_dec_bits_exact e m : 0 <= e < 64 -> 0 < m < 2 ^ 18 -> remb_dec e m = f32_bits_exact m e.
+Proof.
+  intros He Hm. destruct (remb_decode_bits e m He Hm) as (k & Hk & _ & _ & HD & _).
+  rewrite HD. unfold f32_bits_exact. destruct (Z.eqb_spec m 0) as [A|_]; [lia|]. cbv zeta. rewrite <- Hk.
+  f_equal. f_equal. lia.
+Qed.
+
+Lemma remb_ref_mant_pos x : 1 <= x -> 0 < snd (remb_ref x).
+Proof.
+  intros H. rewrite remb_ref_eq. destruct (Z.leb_spec (0x3FFFF * 2 ^ 63) x) as [A|A]; cbn [snd]; [lia|].
+  pose proof (kexp_nonneg x) as HK. pose proof (pow2_pos _ HK) as HP.
+  assert (2 ^ kexp x <= x).
+  { destruct (Z.eq_dec (kexp x) 0) as [E|E]; [rewrite E; change (2 ^ 0) with 1; lia|].
+    pose proof (kexp_lower x ltac:(lia)). change (2 ^ 17) with 131072 in *. lia. }
+  assert (1 <= x / 2 ^ kexp x) by (apply Z.div_le_lower_bound; lia). lia.
+Qed.
+Local Open Scope N_scope.
+
+Lemma get_be4_self x : x < 4294967296 -> get_be_at 4 (be 4 x) 0 = Ok x.
+Proof. intros H. rewrite <- (app_nil_r (be 4 x)). apply (get_be_at_app 4 [] x []); [reflexivity|exact H]. Qed.
+
+Lemma ssrcs_read_enc l : forall pre fuel, forallb (fits 32) l = true -> (length l < fuel)%nat ->
+  remb_ssrcs_read fuel (pre ++ List.concat (map (be 4) l)) (len pre) (len pre + 4 * nl l) = Ok l.
+Proof.
+  induction l as [|x r IH]; intros pre fuel HD Hf.
+  - destruct fuel as [|f]; [cbn [length] in Hf; lia|]. cbn [remb_ssrcs_read]. unfold nl. cbn [length].
+    destruct (N.ltb_spec (len pre) (len pre + 4 * N.of_nat 0)); [lia|reflexivity].
+  - destruct fuel as [|f]; [lia|]. cbn [length] in Hf. cbn [forallb] in HD. apply andb_true_iff in HD as [Hx Hr].
+    unfold fits in Hx. change (2 ^ 32) with 4294967296 in Hx.
+    cbn [remb_ssrcs_read map List.concat].
+    assert (Hnl : nl (x :: r) = 1 + nl r) by (unfold nl; cbn [length]; lia). rewrite Hnl.
+    destruct (N.ltb_spec (len pre) (len pre + 4 * (1 + nl r))) as [_|A]; [|lia].
+    rewrite slice_ok by (rewrite ?len_app, ?len_be; cbn [N.of_nat Pos.of_succ_nat Pos.succ]; lia). cbn [bind].
+    replace (len pre + 4 - len pre) with 4 by lia. change (N.to_nat 4) with 4%nat.
+    unfold len at 1. rewrite Nat2N.id, skipn_app, skipn_all, Nat.sub_diag. cbn [skipn app].
+    rewrite firstn_app, be_length, Nat.sub_diag, firstn_O, app_nil_r.
+    rewrite (firstn_all2 (be 4 x)) by (rewrite be_length; lia).
+    rewrite get_be4_self by lia. cbn [bind].
+    replace (len pre + 4) with (len (pre ++ be 4 x)) by (rewrite len_app, len_be; reflexivity).
+    replace (len pre + 4 * (1 + nl r)) with (len (pre ++ be 4 x) + 4 * nl r) by (rewrite len_app, len_be; cbn [N.of_nat Pos.of_succ_nat Pos.succ]; lia).
+    rewrite app_assoc. rewrite IH; [reflexivity|exact Hr|lia].
+Qed.
